@@ -39,10 +39,12 @@ def truth_from_traces(read_lines, check_lines):
                 kind = "file"
             comps = [c.decode("latin1") for c in path.strip(b"/").split(b"/")] if path.strip(b"/") else []
             cur = {"id": e["id"], "kind": kind, "dirp": comps, "plen": e["plen"], "packed": e["packed"], "avail": e["packed"],
-                   "sup": kind == "file" and meth in corpus.METHODS, "data": [], "good": False, "trunc": False}
+                   "sup": kind == "file" and meth in corpus.METHODS, "data": [], "good": False, "trunc": False, "macfail": False}
             arc.append(cur)
         elif e["e"] == "Read" and cur is not None:
             cur["data"] += e.get("bytes", [])
+            if cur["sup"] and not e["proj"]["dec"] and not cur["data"]:
+                cur["macfail"] = True   # the decoder could not be opened although the method is supported (MacBinary pass-through)
             if e["proj"]["beof"]:
                 cur["trunc"] = True     # the input ended inside this member's data
     i = -1
